@@ -27,6 +27,11 @@ BEGIN = ['mithril_persistence::sqlite::connection_extensions::ConnectionExtensio
 COMMIT = ['mithril_persistence::sqlite::transaction::Transaction::commit', '*::Transaction::commit']
 
 
+DROPPING = ('call:*Iterator>::filter', 'call:*Iterator::filter', 'call:*::retain', 'call:*::retain_mut', 'call:*::take_while', 'call:*::skip_while',
+            'call:*::filter_map', 'call:*::skip', 'call:*::take', 'call:*::step_by', 'call:*::truncate', 'call:*::split_off', 'call:*::drain',
+            'call:*::dedup*', 'call:*::extract_if', 'call:*::partition')
+
+
 def has(og, pat):
     # a field path under the named origin also counts (getters spliced by the inliner make origins more precise)
     return any(glob_match(pat, o) or (pat[-1] != '*' and glob_match(pat + '.*', o)) for o in og)
@@ -120,6 +125,8 @@ def run(ctx):
     if run_ is not None:
         loops = {}
         for g, c in ctx.closure_sites(RUN, POLL, depth=4):
+            if '::chain_importer::' not in getattr(g, '_orig', g).root().name:
+                continue        # a streamer delegating to the streamer it wraps is not the importer's loop
             loops.setdefault(getattr(g, '_orig', g).name, (g, []))[1].append(c)
         inst_b = 'importer loop: every polled batch is stored or rolled back; errors propagate'
         inst_c = 'importer: last_polled_point is written only after the batch loop ended (poll returned None)'
@@ -161,6 +168,11 @@ def run(ctx):
                     og = ctx.deep(root_li, g2, c2.args[1], True, up=3, depth=3)
                     if not has(og, 'call:*::BlockStreamer::poll_next'):
                         problems.append('%s is not given what the scanner event carried' % fn_short(c2.best()))
+                    # the whole batch: no element-dropping adapter between the event and the store (seed C13-5: forward blocks were
+                    # filtered against a stored height read before the roll-back of the same run)
+                    dropping = sorted(o for o in og if any(glob_match(q, o) for q in DROPPING))
+                    if dropping and any(glob_match(q, n) for q in ST for n in c2.names()):
+                        problems.append('the stored batch passes %s: blocks of a polled batch can be dropped' % [fn_short(o[5:]) for o in dropping][:3])
                 for c in sts + rms:
                     if not track_result(body, c.dest[0], +1).discharged():
                         problems.append('result of %s not propagated' % fn_short(c.best()))
@@ -168,22 +180,91 @@ def run(ctx):
                 R.violation('b', 'R1', inst_b, 'importer:loop', '; '.join(sorted(set(problems))), li.loc())
             else:
                 R.ok('b', 'R1', inst_b, '', li.loc())
-            # (c) cursor
-            LPP = ['*::BlockStreamer::last_polled_point']
-            lps = ctx.call_sites(body, LPP + _helpers(LPP))
-            if not lps:
-                R.violation('c', 'R2', inst_c, 'importer:cursor', 'last_polled_point sites 0', li.loc())
-            else:
-                none_edges = set()
+        # (c) cursor: wherever it is read from the streamer / written to the importer, that point is reached only when the stream has
+        # ended successfully (poll returned None, directly or inside an awaited helper whose own Ok requires it)
+        LPP = ['*::BlockStreamer::last_polled_point']
+
+        def done_edges(view, depth=0):
+            """edges of view.body on which the polled stream is known to have ended successfully"""
+            body = view.body
+            ed = set()
+            if ctx.call_sites(body, POLL):
                 for l, (ty, nm) in enumerate(body.locals):
                     if ty.startswith('std::option::Option<') and 'ChainScannedBlocks' in ty:
-                        none_edges |= track_result(body, l, -1, 'option').success_edges
-                reach = body.reach([0], removed=none_edges)
-                bad = [c for c in lps if c.bb in reach]
-                if bad or not none_edges:
-                    R.violation('c', 'R2', inst_c, 'importer:cursor', 'the cursor read/write is reachable without the end-of-stream arm', li.loc())
-                else:
-                    R.ok('c', 'R2', inst_c, '', li.loc())
+                        ed |= track_result(body, l, -1, 'option').success_edges
+            if depth < 2:
+                root0 = getattr(view, '_orig', view).root()
+                for c in body.calls():
+                    for n in c.names():
+                        for h in ws.by_name.get(n, []):
+                            if h.root() is root0 or h.kind not in ('fn', 'assoc_fn') or h.unit.crate != root0.unit.crate:
+                                continue
+                            if not ctx.closure_sites(h, POLL, depth=2):
+                                continue
+                            hv = ctx.view(h).logic()
+                            hd = done_edges(hv, depth + 1)
+                            if hd and not success_reachable(hv.body, hd, 'ok'):
+                                ed |= track_result(body, c.dest[0], +1).success_edges
+            return ed
+        cur = [(g, c) for g, c in ctx.closure_sites(RUN, LPP, depth=4) if '::chain_importer::' in getattr(g, '_orig', g).root().name]   # not the streamers' own delegations
+        if not cur:
+            R.violation('c', 'R2', inst_c, 'importer:cursor', 'last_polled_point sites 0', run_.loc())
+        else:
+            bad = []
+            for g, c in cur:
+                ed = done_edges(g)
+                if not ed or c.bb in g.body.reach([0], removed=ed):
+                    bad.append('%s line %d' % (fn_short(g.name), c.line))
+            if bad:
+                R.violation('c', 'R2', inst_c, 'importer:cursor', 'the cursor read/write is reachable without the end-of-stream arm: %s' % bad, cur[0][0].loc())
+            else:
+                R.ok('c', 'R2', inst_c, '%d site(s)' % len(cur), cur[0][0].loc())
+        # (c) what the importers remember in memory between runs: a roll-back rewrites the STORE; a chain position kept in a cell of
+        # an importer survives it.  Allowed: the streaming cursor (above); any other such cell must be rewritten on the roll-back path
+        # (seed C13-4: the block-range importer remembered its last computed range and never recomputed the ranges a roll-back removed)
+        CELL = ('Mutex<', 'RwLock<', 'Cell<', 'Atomic', 'OnceLock<', 'OnceCell<')
+        POS = ('BlockRange', 'BlockNumber', 'ChainPoint', 'SlotNumber', 'RawCardanoPoint')
+        BTI = IMP[:-2]
+        CURSOR = {(BTI, 'last_polled_point')}
+        cells = []
+        for an, a in sorted(ws.adts.items()):
+            if '::chain_importer::' not in an or not an.startswith('mithril_cardano_node_chain::'):
+                continue
+            for v in a['variants']:
+                for fd in v['fields']:
+                    ty = fd.get('ty') or ''
+                    if any(x in ty for x in CELL) and any(x in ty for x in POS):
+                        cells.append((an, fd['n']))
+        rb_roots = set()
+        for f0 in ws.fns:
+            if f0.unit.crate == 'mithril_cardano_node_chain' and f0.unit.tag == 'lib' and '::chain_importer::' in f0.name and \
+                    any(glob_match(q, n) for (cal, res, _l) in f0.calls for n in (cal, res) if n for q in RM):
+                rb_roots |= {id(x) for x in ctx.closure_fns(f0.root(), depth=3)}
+        WR = ('*::lock', '*::lock_owned', '*::blocking_lock', '*::try_lock', '*::write', '*::blocking_write', '*::try_write', '*::store', '*::set', '*::replace',
+              '*::swap', '*::fetch_*', '*::get_mut', '*::take')
+        inst_m = 'importers: a chain position remembered in memory is the streaming cursor, or is rewritten on the roll-back path'
+        stale = []
+        for an, fn_ in cells:
+            if (an, fn_) in CURSOR:
+                continue
+            short = an.rsplit('::', 1)[-1]
+            writers = set()
+            for f0 in ws.fns:
+                if f0.unit.crate != 'mithril_cardano_node_chain' or f0.unit.tag != 'lib':
+                    continue
+                if not any(any(glob_match(q, n) for q in WR) for (cal, res, _l) in f0.calls for n in (cal, res) if n):
+                    continue
+                for c in f0.body.calls():
+                    if any(glob_match(q, n) for q in WR for n in c.names()) and c.args and \
+                            has(fn_origins(f0, c.args[0], 'adapters'), 'pty:%s.%s' % (short, fn_)):
+                        writers.add(id(f0.root()))
+            if not (writers & rb_roots):
+                stale.append('%s.%s' % (short, fn_))
+        if stale:
+            R.violation('c', 'R3', inst_m, 'importer:memory-state:%s' % ','.join(stale), 'in-memory chain positions never rewritten where a roll-back is handled: %s '
+                        '(resuming from them skips what the roll-back removed from the store)' % stale, run_.loc())
+        else:
+            R.ok('c', 'R3', inst_m, '%d cell(s): %s' % (len(cells), ['%s.%s' % (a_.rsplit('::', 1)[-1], f_) for a_, f_ in cells]), run_.loc())
         # the scan covers [start_point(), requested beacon]
         SCAN = ['*::BlockScanner::scan']
         ctx.sink_arg('b', RUN, SCAN, 1, require_via=[IMP + 'start_point'], desc='(from) <- start_point()', depth=4, key='importer:run-args:from')
